@@ -217,6 +217,29 @@ end
 /-- `dump` as the code behaves: `none` = exception (UnicodeEncodeError) -/
 def dump? (v : TVal) : Option Bytes := if encodable v then some (dump v) else none
 
+/-! ### the values the property quantifies over -/
+
+def TDict.hasKey (k : List Nat) : TDict → Bool
+  | .nil => false
+  | .cons k' _ kvs => k' == k || TDict.hasKey k kvs
+
+/- Well-formed values (decidable): a float is a `str(float)`-shaped token, text consists of Unicode
+scalar values, dictionary keys are ASCII and distinct (a Python `dict` cannot hold a key twice). -/
+mutual
+def wf : TVal → Bool
+  | .float tok => floatTokOk tok
+  | .text cps => cps.all isScalar
+  | .list vs => wfList vs
+  | .dict kvs => wfDict kvs
+  | _ => true
+def wfList : TList → Bool
+  | .nil => true
+  | .cons v vs => wf v && wfList vs
+def wfDict : TDict → Bool
+  | .nil => true
+  | .cons k v kvs => k.all (· < 128) && !(TDict.hasKey k kvs) && wf v && wfDict kvs
+end
+
 /-! ### parse -/
 
 /-- `data.split(b':', 1)`: `none` when there is no colon (unpacking raises ValueError) -/
@@ -310,12 +333,13 @@ inductive St where
   | size (n : Nat)                        -- SIZE, digits so far read as a number
   | data (need : Nat) (acc : Bytes)       -- DATA: `need` more bytes, then the TYPE byte
   | failed                                -- an exception left `tnet_from`
-deriving Repr
+deriving DecidableEq
 
 structure Run where
   st   : St := .start
   out  : List (TVal × Nat) := []          -- messages yielded, each with `source.sent` at that moment
   sent : Nat := 0                         -- symbols consumed so far
+deriving DecidableEq
 
 /-- TYPE conversion in `tnet_parser.process` -/
 def convert (t : Nat) (src : Bytes) : Option TVal :=
